@@ -45,13 +45,50 @@ package memtable
 //@ predicate MTDel(m *MemTable, k bstr) = m.skipList.del[k]
 //@ pure func MTVal(m *MemTable, k bstr) bstr = m.skipList.val[k]
 
+// ---- C18: representation invariant of the skip list.  Ghost: in = the set of linked nodes (without the head), stamp =
+// insertion stamp of a node (a later insert has a larger stamp).  Before is the strict total order of the list: key
+// ascending, sequence number descending, and among equal (key, sequence) the later insert first.  Every link at every
+// level points forward in that order to a member; the level-0 link of a node points to its immediate successor.
+//@ ghost field (*SkipList) in set[*node]
+//@ ghost field (*SkipList) found *node
+//@ ghost field (*SkipList) nstamp int
+//@ ghost field (*node) stamp int
+//@ pure func nkey(n *node) bstr = bstr(n.entry.key)
+//@ predicate Before(a *node, b *node) = blt(nkey(a), nkey(b)) || (nkey(a) == nkey(b) && (a.entry.seqNum > b.entry.seqNum || (a.entry.seqNum == b.entry.seqNum && a.stamp > b.stamp)))
+//@ predicate Lt(s *SkipList, a *node, b *node) = b != s.head && (a == s.head || Before(a, b))
+//@ predicate Member(s *SkipList, n *node) = n == s.head || s.in[n]
+//@ predicate SLInv(s *SkipList) = s != nil && s.head != nil && s.head.entry == nil && !s.in[s.head] && 1 <= s.maxHeight && s.maxHeight <= 12 && (forall n *node :: s.in[n] ==> n != nil && n.entry != nil && n.stamp <= s.nstamp) && (forall a *node, b *node :: s.in[a] && s.in[b] && a != b ==> a.stamp != b.stamp) && (forall n *node, l int :: Member(s, n) && 0 <= l && l < 12 ==> load(n.next[l]) == nil || (s.in[load(n.next[l])] && Lt(s, n, load(n.next[l])))) && (forall n *node, m *node :: Member(s, n) && s.in[m] && Lt(s, n, m) ==> load(n.next[0]) != nil && (m == load(n.next[0]) || Lt(s, load(n.next[0]), m)))
+
 // Find returns the newest entry of the key in terms of the view (view-level contract; its proof from the list
 // structure is the goal of C18).  Entries satisfy: a value entry has a non-nil value (newEntry).
 //@ func (*SkipList).Find
-//@   trusted assumed view-level contract (goal of C18: proof from the skiplist representation invariant)
-//@   modifies nothing
-//@   ensures (result == nil) == !s.has[bstr(key)]
-//@   ensures result != nil ==> (result.valueType == TypeDeletion) == s.del[bstr(key)] && bstr(result.value) == s.val[bstr(key)] && (result.valueType != TypeDeletion ==> result.value != nil)
+//@   safety[C18]
+//@   requires SLInv(s)
+//@   modifies s.found
+//@   ghost entry: s.found = nil
+//@   ghost after call (*node).getNext#1: s.found = result
+// representation level (CHECKED): nil exactly when no node of the list carries the key; otherwise the entry of the
+// node that comes first among the nodes with that key - highest sequence number, ties: the later insert
+//@   ensures[C18] result == nil ==> (forall m *node :: s.in[m] ==> nkey(m) != bstr(key))
+//@   ensures[C18] result != nil ==> s.found != nil && s.in[s.found] && s.found.entry == result && nkey(s.found) == bstr(key)
+//@   ensures[C18] result != nil ==> (forall m *node :: s.in[m] && nkey(m) == bstr(key) && m != s.found ==> Before(s.found, m))
+// view level (ASSUMED abstraction step from the node set to the has/del/val view used by C01)
+//@   ensures[A] (result == nil) == !s.has[bstr(key)]
+//@   ensures[A] result != nil ==> (result.valueType == TypeDeletion) == s.del[bstr(key)] && bstr(result.value) == s.val[bstr(key)] && (result.valueType != TypeDeletion ==> result.value != nil)
+//@ loop (*SkipList).Find#1
+//@   invariant[C18] s.found == nil && 0 - 1 <= level && level < height && height <= 12
+//@   invariant[C18] current == s.head || (s.in[current] && blt(nkey(current), bstr(key)))
+//@   invariant[C18] level < height - 1 ==> (load(current.next[level+1]) == nil || !blt(nkey(load(current.next[level+1])), bstr(key)))
+//@   invariant[C18] SLInv(s)
+//@ loop (*SkipList).Find#2
+//@   invariant[C18] s.found == nil && 0 <= level && level < height && height <= 12 && next == load(current.next[level])
+//@   invariant[C18] current == s.head || (s.in[current] && blt(nkey(current), bstr(key)))
+//@   invariant[C18] SLInv(s)
+//@ loop (*SkipList).Find#3
+//@   invariant[C18] s.found != nil && s.in[s.found] && nkey(s.found) == bstr(key) && result == s.found.entry
+//@   invariant[C18] candidate == nil || candidate == s.found || (s.in[candidate] && Before(s.found, candidate))
+//@   invariant[C18] forall m *node :: s.in[m] && nkey(m) == bstr(key) && m != s.found ==> Before(s.found, m)
+//@   invariant[C18] SLInv(s)
 
 // Get maps the newest entry to (value, found): a deletion marker reads as (nil, true), a value never reads as nil.
 //@ func (*MemTable).Get
@@ -152,3 +189,34 @@ package memtable
 //@ func (*MemTablePool).checkFlushConditions
 //@   requires p.active != nil && p.active.skipList != nil && lockstate(p.mu) == 0
 //@   ensures[C07] true
+
+// ---- C18: the order of the list - key ascending, then sequence number DESCENDING (newer versions first) - as decided
+// by the two comparison functions every search and insert goes through.
+//@ func (*entry).compare
+//@   requires e != nil
+//@   modifies nothing
+//@   ensures[C18] (result < 0) == blt(bstr(e.key), bstr(key)) && (result == 0) == (bstr(e.key) == bstr(key))
+//@ func (*entry).compareWithEntry
+//@   requires e != nil && other != nil
+//@   modifies nothing
+//@   ensures[C18] (result < 0) == (blt(bstr(e.key), bstr(other.key)) || (bstr(e.key) == bstr(other.key) && e.seqNum > other.seqNum))
+//@   ensures[C18] (result == 0) == (bstr(e.key) == bstr(other.key) && e.seqNum == other.seqNum)
+//@   ensures[C18] (result > 0) == (blt(bstr(other.key), bstr(e.key)) || (bstr(e.key) == bstr(other.key) && e.seqNum < other.seqNum))
+
+// Snapshot visibility of the list iterator: an iterator never rests on an entry newer than its snapshot (0 = no
+// filtering); Next and SeekToFirst skip such entries.
+//@ predicate Rests(it *Iterator) = it.current == nil || it.current == it.list.head || it.snapshotSeq == 0 || (it.current.entry != nil && it.current.entry.seqNum <= it.snapshotSeq)
+//@ func (*Iterator).isVisible
+//@   requires it != nil && n != nil && (it.snapshotSeq != 0 ==> n.entry != nil)
+//@   modifies nothing
+//@   ensures[C18] result == (it.snapshotSeq == 0 || n.entry.seqNum <= it.snapshotSeq)
+//@ func (*SkipList).NewIteratorWithSnapshot
+//@   ensures[C18] result != nil && fresh(result) && result.list == s && result.current == s.head && result.snapshotSeq == snapshotSeq
+//@ func (*SkipList).NewIterator
+//@   ensures[C18] result != nil && fresh(result) && result.list == s && result.current == s.head && result.snapshotSeq == 0
+// A mutable table's iterator takes the table's next sequence number as its snapshot; an immutable table needs none.
+//@ func (*MemTable).NewIterator
+//@   requires m.skipList != nil && lockstate(m.mu) == 0
+//@   ensures[C18] result != nil && fresh(result) && result.list == m.skipList
+//@   ensures[C18] m.immutable ==> result.snapshotSeq == 0
+//@   ensures[C18] !m.immutable ==> result.snapshotSeq == m.nextSeqNum
